@@ -45,6 +45,8 @@ Ok(e) ==
       [] e.op = "map" -> e.obs = [min |-> [a \in 1 .. d |-> 3 * e.a.min[a] + 1], max |-> [a \in 1 .. d |-> 3 * e.a.max[a] + 1]]
       \* rectangle <-> box conversions and rectangle methods = box methods on the converted value
       [] e.op = "rect_to_box" -> e.obs = BoxOfRect(e.pos, e.ext)
+      \* the 2D box of a 3D box: the first two coordinates of both corners
+      [] e.op = "box_drop_z" -> e.obs = [min |-> <<e.a.min[1], e.a.min[2]>>, max |-> <<e.a.max[1], e.a.max[2]>>]
       [] e.op = "box_to_rect" -> e.obs.pos = e.a.min /\ e.obs.ext = VSub(e.a.max, e.a.min)
       [] e.op = "new_empty" -> e.obs = [min |-> e.p, max |-> e.p]
       \* disks / spheres on integers
